@@ -185,6 +185,8 @@ pub struct AlScript {
     /// After the state has been reached: after `.0` further AL status reads fall back to state
     /// `.1` with the error indication and status code 0x001B (sync manager watchdog).
     pub fall_back: Option<(u32, u8)>,
+    /// Take the request (the state is entered at once) and never answer a read of AL status again.
+    pub silent: bool,
 }
 
 /// Static ESC identification.
@@ -269,6 +271,8 @@ pub struct Device {
     al_fallback: Option<(u32, u8)>,
     /// Every read of AL status: (global sequence number, the byte at 0x0130 the read returned).
     pub al_read_log: Vec<(u64, u8)>,
+    /// Reads touching AL status are not acknowledged (see `AlScript::silent`).
+    pub al_silent: bool,
 
     /// SII read command returns 8 bytes (else 4).
     pub sii_read_8: bool,
@@ -357,6 +361,7 @@ impl Device {
             al_pending: None,
             al_fallback: None,
             al_read_log: Vec::new(),
+            al_silent: false,
             sii_read_8: false,
             sii_busy_polls: 0,
             sii_write_errors: 0,
@@ -747,6 +752,9 @@ impl Device {
         if !self.any_exists(ado, len) {
             return false;
         }
+        if self.al_silent && overlaps(ado, len, reg::AL_STATUS, 2) {
+            return false;
+        }
         // Read mailbox semantics
         if ado >= 0x1000 {
             if let Some((_, start, mlen)) = self.mailbox_sm(0) {
@@ -1011,6 +1019,9 @@ impl Device {
                 self.al_status_code = code;
             }
             AlOutcome::Accepted => {
+                if script.silent {
+                    self.al_silent = true;
+                }
                 if self.al_emulation {
                     // status mirrors control
                     self.al_error = ack;
